@@ -2,6 +2,7 @@
   Lemmas about `_prune_chunks` on one axis.
 -/
 import KatdalModel.Model.ChunkStore
+import KatdalModel.Lemmas.Normalize
 open Np
 
 namespace ChunkStore
@@ -264,5 +265,53 @@ theorem pruneAxisRaw_bounds (chunks : List Nat) (start stop : Nat) :
   rw [this]
   have := chunkBounds_drop (chunks.take e) 0 a
   simpa using this
+
+/-! ### the index as `_prune_chunks` sees it -/
+
+/-- every unit-step slice that `normalize_index` + `slice.indices` accept on an axis of length
+    `n` comes out as `0 ≤ start ≤ stop ≤ n` -/
+theorem normPIx_range (n : Nat) (a b c : Option Int) (s e : Nat)
+    (h : normPIx n a b c = .ok (.range s e)) : s ≤ e ∧ e ≤ n := by
+  unfold normPIx at h
+  cases hn : DaskIx.normalizeSlice n a b c with
+  | none => simp [hn] at h
+  | some t =>
+    obtain ⟨a', b', c'⟩ := t
+    simp only [hn] at h
+    split at h
+    · cases h
+    · rename_i hc
+      split at h
+      · cases h
+      · rename_i hfull
+        have hc1 : c'.getD 1 = 1 := by
+          simp only [Bool.not_eq_eq_eq_not, Bool.not_true, decide_eq_false_iff_not,
+            Decidable.not_not] at hc
+          rcases hc with hc | hc <;> rw [hc] <;> rfl
+        rw [DaskIx.sliceIndices_eq n a' b' c' 1 hc1 (by decide)] at h
+        simp only [Except.ok.injEq, PIx.range.injEq] at h
+        -- shape of a', b' from normalize_slice
+        unfold DaskIx.normalizeSlice at hn
+        cases hi : sliceIndices n a b c with
+        | none => simp [hi] at hn
+        | some t0 =>
+          obtain ⟨s0, e0, st⟩ := t0
+          simp only [hi] at hn
+          obtain ⟨_, hp, _⟩ := sliceIndices_bounds hi
+          by_cases hpos : st > 0
+          · have ⟨h1, h2, h3, h4⟩ := hp hpos
+            simp only [hpos, if_true, Option.some.injEq, Prod.mk.injEq] at hn
+            obtain ⟨ha, hb, _⟩ := hn
+            subst ha; subst hb
+            obtain ⟨hs, he⟩ := h
+            subst hs; subst he
+            by_cases z1 : s0 = 0 <;> by_cases z2 : e0 ≥ (n : Int) <;> by_cases z3 : e0 < s0 <;>
+              simp [z1, z2, z3] <;>
+              (try split) <;> (try split) <;> (try split) <;> omega
+          · simp only [hpos, if_false, Option.some.injEq, Prod.mk.injEq] at hn
+            obtain ⟨_, _, hcc⟩ := hn
+            rw [← hcc] at hc1
+            simp at hc1
+            omega
 
 end ChunkStore
